@@ -12,10 +12,10 @@ import msuite
 from common import rng_for, PYTHON, VERIF, REPO
 
 PID = 'C02'
-TAGS = ['abegin', 'awaited', 'got', 'lenter', 'levels', 'lvorder', 'benter', 'tick', 'caught', 'taskret', 'tfin', 'sexit', 'now']
+TAGS = ['cancel', 'cleanup', 'abegin', 'awaited', 'got', 'lenter', 'levels', 'lvorder', 'benter', 'tick', 'caught', 'taskret', 'tfin', 'sexit', 'now']
 RULE = ('random whole-API programs (timers, flags, tracked values, locks, queues, channels, resources, scopes, cancels; plus '
         'many waiters on one tracked value / resource, several equal-date conditions armed through one connective and watched separately, '
-        '6-12 distinct dates pending at once and requested in arbitrary order, a float-time profile with non-dyadic dates, pipe transfers, throw-away supplies whose names are spelled in different orders) run in-process and in 4 (quick) / 8 (thorough) other configurations '
+        '6-12 distinct dates pending at once and requested in arbitrary order, a float-time profile with non-dyadic dates, pipe transfers, throw-away supplies whose names are spelled in different orders, suspended tasks cancelled at a date at which several delays end) run in-process and in 4 (quick) / 8 (thorough) other configurations '
         '{PYTHONHASHSEED, junk allocations, USIM_WAITQUEUE=SD, python -O}; every configuration must give the same trace as the '
         'in-process run, which must equal the model trace; non-trivial = at least 4 events from at least 2 activities')
 
@@ -90,6 +90,36 @@ CONFIGS = [
 ASSERTION_SEEN = re.compile(r':(tfin:3,|caught:|cleanup:1,)([0-9-]+,)*9(,|;|$)')
 
 
+def cancel_vs_timers(rng):
+    """FIFO between activities whose delay ends at t (queued for t before t began, in the order of their requests) and tasks
+    that are made runnable *during* t by `cancel()`: a controller (first of its date) cancels suspended victims, workers
+    wake at the same date; the victims log the delivery (handler for CancelTask, clean-up, or nothing)"""
+    from fractions import Fraction as F
+    t = rng.choice([1, 2, F(5, 2), 5])
+    body = []
+    k = 0
+    nvict = rng.randint(1, 3)
+    for v in range(nvict):
+        wait = rng.choice([['sleep', 50], ['await', ['flag', 0]], ['sleep', t + 1]])
+        r = rng.random()
+        if r < 0.4:
+            vp = [['try', ['body', wait], ['handler', ['pats', 'cancelTask'], ['body', ['log', 60 + v]]]], ['log', 70 + v]]
+        elif r < 0.7:
+            vp = [['finally', ['body', wait], ['cleanup', ['log', 80 + v]]]]
+        else:
+            vp = [wait, ['log', 90 + v]]
+        body.append(['spawn', 0, v, None, None, False, ['prog'] + vp])
+    members = [['prog', ['sleep', t]] + [['cancel', v, 3 + v] for v in range(nvict)] + [['log', 10]]]
+    for i in range(rng.randint(2, 5)):
+        members.append(['prog', ['sleep', t], ['log', 20 + i]] + ([['sleep', 1], ['log', 30 + i]] if rng.random() < 0.5 else []))
+    if rng.random() < 0.5:
+        rng.shuffle(members)
+    for i, m in enumerate(members):
+        body.append(['spawn', 0, nvict + i, None, None, False, m])
+    main = ['prog', ['try', ['body', ['scope', 0, ['none']] + body], ['handler', ['pats', 'concurrent', 'anyException'], ['body', ['log', 99]]]]]
+    return ['scenario', ['debug', 1], ['start', 0], ['flags', 1], ['locks', 0], ['roots', main]]
+
+
 def run_config(name, env_extra, pyflags, scenarios):
     env = dict(os.environ, PYTHONPATH=REPO, USIM_VERIF_REPO=REPO)
     env.pop('USIM_WAITQUEUE', None)
@@ -122,6 +152,8 @@ def run(tier, seed, drv, scenarios=None):
                 scenarios.append(('rat', connective_family(rng)))
             elif i % 16 == 3:
                 scenarios.append(('rat', pool_family(rng)))
+            elif i % 16 == 11:
+                scenarios.append(('rat', cancel_vs_timers(rng)))
             elif i % 8 == 5:
                 # pipes (float time): transfers that overlap, are abandoned by deadlines / cancels and follow each other
                 scenarios.append(('float', c13.family(rng)))
